@@ -1,5 +1,8 @@
+#[cfg(not(desync_verif))]
 use std::thread;
+#[cfg(desync_verif)] use vsched::thread;
 use std::sync::mpsc::*;
+#[cfg(desync_verif)] use vsched::sync::mpsc::{channel, Sender, Receiver};
 
 ///
 /// Creates a FnMut that runs a FnOnce once (or panics)
